@@ -84,9 +84,9 @@ CLAIMS.update({
 DNOTE = "Trusted: Coq kernel, ExtrOcamlBasic extraction, OCaml driver, Python orchestration; harness atomh = verbatim mirror of the lock-free source files compiled against instrumented atomics + deterministic scheduler (OS threads, one running at a time): explores sequentially consistent interleavings only. "
 CLAIMS.update({
  "C12": dict(
-    text="Coq theorem (full, sequential): for every capacity >= 1 and every sequence of push/pop/pop-and-hold/release/close/len/is_closed the stamped ring buffer of queue.rs answers exactly like a bounded FIFO with one borrowable slot - Full exactly when capacity messages are outstanding, pops in push order each once, Closed only when closed and drained, len = queued (c12_seq_refines, c12_seq_step; representation invariant over slot stamps). Tie: op sequences (exhaustive to a bound + random over many laps, capacities 1..16) on the verbatim queue.rs vs the extracted model. Concurrent part NOT proved: 1-3 producers + consumer (+close) under thousands of random schedules at atomic-operation granularity on the real code, judged by an oracle (exactly-once, per-producer FIFO, capacity, quiescent len, close).",
-    note=DNOTE + "PARTIAL: no Coq theorem for concurrent executions (QueueConc.v of the design not built); the bit encoding of positions is abstracted (monotone re-encoding, exercised by correspondence); memory orderings recorded, not given a semantics; wake-up pairing (async_event, diatomic_waker) trusted.",
-    technique="Coq proof (refinement by representation invariant) + differential op-sequence correspondence on mirrored source + scheduled exploration with oracle",
+    text="Coq theorem (full, sequential): for every capacity >= 1 and every sequence of push/pop/pop-and-hold/release/close/len/is_closed the stamped ring buffer of queue.rs answers exactly like a bounded FIFO with one borrowable slot - Full exactly when capacity messages are outstanding, pops in push order each once, Closed only when closed and drained, len = queued (c12_seq_refines, c12_seq_step; representation invariant over slot stamps). Tie: op sequences (exhaustive to a bound + random over many laps, capacities 1..16) on the verbatim queue.rs vs the extracted model. Concurrent part NOT proved: 1-3 producers + consumer (+close) under thousands of random schedules at atomic-operation granularity on the real code, judged by an oracle (exactly-once, per-producer FIFO, capacity, quiescent len, close). Concurrent part (Coq, for every interleaving of single shared-memory accesses, any number of producers, one consumer, close() at any time, spurious compare_exchange_weak failures, sequential consistency): an inductive invariant (c12_conc_invariant) gives: the consumer receives a prefix of the accepted messages in acceptance order, each once, none invented (c12_conc_fifo); at most capacity messages are accepted and not yet handed back (c12_conc_bounded); each producer's messages are delivered in the order it sent them (c12_conc_producer_order); no unreachable!() arm or debug assertion is reached - no two parties touch one cell at once (c12_conc_no_unreachable); len() is the number of messages held whenever nothing is in flight (c12_conc_len); after close() nothing is accepted and Closed is reported to the consumer only once every accepted message was delivered (c12_conc_closed_*). QueueConc.v is tied to the code by replaying every explored trace of the verbatim queue.rs, access by access, in the extracted model.",
+    note=DNOTE + "Sequential consistency only for the concurrent part: the Release/Acquire orderings on the stamps are recorded, not given a weak-memory semantics; the bit encoding of positions is abstracted (monotone re-encoding, decoded by the replay and exercised over several laps and capacities); wake-up pairing of channel.rs (async_event, diatomic_waker) is not modelled - covered only by the explored schedules and the capacity-1 Sim benches.",
+    technique="Coq proof (sequential refinement by representation invariant; concurrent inductive invariant over all SC interleavings) + op-sequence correspondence and step-by-step trace replay on mirrored source + scheduled exploration with oracle",
     ref="DESIGN.md §5 C12"),
  "C15": dict(
     text="Coq theorems under a release/acquire + relaxed + fences memory model (view-based operational semantics, Model/WMem.v), for the two programs GENERATED on every run from util/sync_cell.rs and time/monotonic_time.rs (translator T2, gen/SyncCellProg.v): for any initial value, any sequence of writes, any number of readers, any schedule and any choice of the (possibly stale) message each load reads, every result of try_read is exactly a value the cell has held (c15_wm_not_torn), results of one reader follow the write order and are never older than what the reader's view already contained (c15_wm_monotone), by an inductive invariant over message views and program counters (c15_wm_invariant); the obligation 'generated program = proved program' (c15_wm_source_is_proved_program) breaks when the atomic operations, their order or their orderings change, and the check then searches the weak-memory machine on the generated programs for a torn/backward read and reports that execution as the replay. The same statements are also proved under sequential consistency (c15_sc_*) for the model that is run against the verbatim sync_cell.rs schedule by schedule under the deterministic scheduler (same values per reader); the orderings the compiled code executes are compared with the generated programs.",
